@@ -178,6 +178,25 @@ def _user_aggregation_runs(df, date, rnd, cols, tid, work, info):
             continue
         tr.run(tid2, k, "targets", res, list(res.columns), requested=sorted(set(targets)))
         info["runs"].append({"run": k, "rel": "targets", "targets": targets, "opts": {"aggregate_by_group_specs": True}})
+    # a user rule that uses built-in group aggregates (any of a flag) as NUMBERS: its value must not depend on whether the
+    # aggregates themselves are requested as well
+    builtin = [a for a in ("kind_anspruchsberechtigt_fg", "alleinerz_hh") if a in cols]
+    if len(builtin) == 2:      # (both exist and are computable at this date)
+        def verif_flags(kind_anspruchsberechtigt_fg: bool, alleinerz_hh: bool) -> float:
+            return 10.0 * kind_anspruchsberechtigt_fg + 1.0 * alleinerz_hh
+
+        fns = [gs.env(date)[1], verif_flags]
+        try:
+            b2 = gs.compute(df, date, functions=fns, targets=["verif_flags"])
+            tid3 = tid + 3_000_000
+            tr.base(tid3, b2, list(b2.columns), [])
+            for targets in (["verif_flags"] + builtin, ["verif_flags", builtin[0]]):
+                k += 1
+                res = gs.compute(df, date, functions=fns, targets=targets)
+                tr.run(tid3, k, "targets", res, list(res.columns), requested=sorted(set(targets)))
+                info["runs"].append({"run": k, "rel": "targets", "targets": targets, "opts": {"user_rule_on_builtin_aggregates": True}})
+        except Exception as e:  # noqa: BLE001
+            info["errors"].append({"run": k, "targets": ["verif_flags"] + builtin, "opts": {"user_rule_on_builtin_aggregates": True}, "error": f"{type(e).__name__}: {str(e)[:160]}"})
     return tr.judge()
 
 
